@@ -4,7 +4,7 @@ use simcore::{Components, Obs, Scenario, Tier};
 
 use crate::cfg::{Cfg, ProbeKind, Step};
 use crate::world::{Report, StepOutcome, World, N_POOLS};
-use crate::{c02, c03, c04, c05, c06, c07, c08, c12, c13, gen};
+use crate::{c02, c03, c04, c05, c06, c07, c08, c12, c13, c14, gen};
 
 pub struct MarketHistory {
     pub focus: &'static str,
@@ -130,7 +130,8 @@ impl Scenario for MarketHistory {
                         ProbeKind::FeesDirect { amount, discount, pos } => {
                             c02::probe_fees_direct(&w, amount.0, discount.0, *pos, obs)
                         }
-                        ProbeKind::SplitDistribution { .. } | ProbeKind::OpenClose { .. } | ProbeKind::PnlDirection { .. } => {}
+                        ProbeKind::SplitDistribution { t1, t2 } => c14::probe_split(&w, *t1, *t2, obs),
+                        ProbeKind::OpenClose { .. } | ProbeKind::PnlDirection { .. } => {}
                     }
                     let name = match kind {
                         ProbeKind::LpRoundTrip { .. } => "lp_round_trip",
@@ -179,6 +180,7 @@ impl Scenario for MarketHistory {
                     c08::after_step(&w, &out, obs);
                     c13::after_step(&w, &out, obs);
                     c12::after_step(&w, &out, obs);
+                    c14::after_step(&w, &out, obs);
                     if let Report::Decrease(r) = &out.report {
                         if r.insolvent_close_step().is_some() {
                             obs.probe("insolvent_close");
